@@ -18,6 +18,7 @@ import (
 	"github.com/lianxiangcloud/linkchain/libs/crypto"
 	dbm "github.com/lianxiangcloud/linkchain/libs/db"
 	"github.com/lianxiangcloud/linkchain/libs/log"
+	"github.com/lianxiangcloud/linkchain/libs/ser"
 	"github.com/lianxiangcloud/linkchain/types"
 )
 
@@ -165,7 +166,8 @@ type expVal struct {
 type expSet struct {
 	live bool
 	vals []expVal
-	prop int // raw cached proposer (0 = nil)
+	prop int    // raw cached proposer (0 = nil)
+	pt   string // what the cached pointer points at ("nil" | "elem" | "detached")
 	gp   int
 	tot  int64
 	rot  bool
@@ -189,7 +191,7 @@ func (e expSet) String() string {
 
 // expFromJSON scales a TLC state (linear instantiations only).
 func (in *inst) expFromJSON(j jSet) expSet {
-	e := expSet{live: j.Live, prop: j.Prop, gp: j.Gp, tot: j.Tot * in.scale, rot: j.Rot}
+	e := expSet{live: j.Live, prop: j.Prop, pt: j.Pt, gp: j.Gp, tot: j.Tot * in.scale, rot: j.Rot}
 	for _, v := range j.Vals {
 		e.vals = append(e.vals, expVal{v.Addr, v.P * in.scale, v.A * in.scale, v.Cb})
 	}
@@ -198,7 +200,7 @@ func (in *inst) expFromJSON(j jSet) expSet {
 
 // expFromRef converts a reference set computed on the 64-bit machine.
 func expFromRef(m *machine, s *rSet) expSet {
-	e := expSet{live: s.Live, prop: s.Prop, rot: s.Rot}
+	e := expSet{live: s.Live, prop: s.Prop, pt: s.Pt, rot: s.Rot}
 	if !s.Live {
 		return e
 	}
@@ -345,9 +347,20 @@ func (r *realSys) observe(vs *types.ValidatorSet, e expSet, viaCopy bool) (prop 
 			shape = fmt.Sprintf("cached Proposer nil=%v, the specification's cache holds #%d", vs.Proposer == nil, e.prop)
 		case vs.Proposer != nil && in.addrOf(vs.Proposer.Address) != e.prop:
 			shape = fmt.Sprintf("cached Proposer #%d, the specification's cache holds #%d", in.addrOf(vs.Proposer.Address), e.prop)
+		case e.pt == "detached" && ownElement(vs, vs.Proposer):
+			shape = "cached Proposer is an element of the set's own slice, the specification has a detached object (decoded set)"
 		}
 	}
 	return nil, shape
+}
+
+func ownElement(vs *types.ValidatorSet, p *types.Validator) bool {
+	for _, v := range vs.Validators {
+		if v == p {
+			return true
+		}
+	}
+	return false
 }
 
 func realString(in *inst, vs *types.ValidatorSet) string {
@@ -436,4 +449,93 @@ func (r *realSys) updateStatus(cur *types.ValidatorSet, list []*types.Validator)
 		return nil, nil, false, err
 	}
 	return ns.Validators, ns.LastValidators, ns.LastHeightValidatorsChanged == types.BlockHeightOne+1, nil
+}
+
+// ---- persist-and-reload ---------------------------------------------------------------
+
+// reloaded is what one of the node's persistence routes gives back for a set.
+type reloaded struct {
+	route string
+	vs    *types.ValidatorSet
+}
+
+// reload persists one set the way the node does and loads it again, along every route the
+// node has: the codec on ValidatorsInfo (LoadValidators) and on NewStatus (NewStatus.Bytes /
+// loadStatus), and the real SaveStatus / LoadStatus / LoadStatusByHeight / LoadValidators
+// on a MemDB followed by status.Copy() -- what node.NewNode hands to the consensus state,
+// the block-sync reactor and the evidence pool after a restart.  The set sits in the field
+// it has in the node: status.Validators (holder A) or status.LastValidators (holder B);
+// the other field holds the other holder's set, or an empty set.
+func (r *realSys) reload(vs, other *types.ValidatorSet, asLast bool) ([]reloaded, error) {
+	if other == nil {
+		other = types.NewValidatorSet(nil)
+	}
+	const lastHeight = uint64(7)
+	status := cs.NewStatus{
+		ChainID:                          "c17",
+		LastBlockHeight:                  lastHeight,
+		LastBlockTotalTx:                 3,
+		LastBlockTime:                    1700000000,
+		Validators:                       vs,
+		LastValidators:                   other,
+		LastHeightValidatorsChanged:      lastHeight + 1, // the set is stored under its own height as well
+		ConsensusParams:                  r.params,
+		LastHeightConsensusParamsChanged: types.BlockHeightOne,
+	}
+	if asLast {
+		status.Validators, status.LastValidators = other, vs
+	}
+	pick := func(st cs.NewStatus) *types.ValidatorSet {
+		if asLast {
+			return st.LastValidators
+		}
+		return st.Validators
+	}
+	var out []reloaded
+	// 1. the codec alone, on the record LoadValidators reads
+	{
+		buf, err := ser.EncodeToBytes(&cs.ValidatorsInfo{ValidatorSet: vs, LastHeightChanged: lastHeight + 1})
+		if err != nil {
+			return nil, fmt.Errorf("encoding ValidatorsInfo: %v", err)
+		}
+		v := new(cs.ValidatorsInfo)
+		if err := ser.DecodeBytes(buf, v); err != nil {
+			return nil, fmt.Errorf("decoding ValidatorsInfo: %v", err)
+		}
+		out = append(out, reloaded{"ser(ValidatorsInfo)", v.ValidatorSet})
+	}
+	// 2. the codec alone, on the status
+	{
+		var st cs.NewStatus
+		if err := ser.DecodeBytes(status.Bytes(), &st); err != nil {
+			return nil, fmt.Errorf("decoding NewStatus.Bytes(): %v", err)
+		}
+		out = append(out, reloaded{"ser(NewStatus)", pick(st)})
+	}
+	// 3. the real store
+	db := dbm.NewMemDB()
+	cs.SaveStatus(db, status)
+	st, err := cs.LoadStatus(db)
+	if err != nil {
+		return nil, fmt.Errorf("LoadStatus after SaveStatus: %v", err)
+	}
+	out = append(out, reloaded{"SaveStatus;LoadStatus;status.Copy()", pick(st.Copy())})
+	sth, err := cs.LoadStatusByHeight(db, lastHeight)
+	if err != nil {
+		return nil, fmt.Errorf("LoadStatusByHeight after SaveStatus: %v", err)
+	}
+	out = append(out, reloaded{"SaveStatus;LoadStatusByHeight;status.Copy()", pick(sth.Copy())})
+	if !asLast {
+		lv, _, err := cs.LoadValidators(db, lastHeight+1)
+		if err != nil {
+			return nil, fmt.Errorf("LoadValidators after SaveStatus: %v", err)
+		}
+		out = append(out, reloaded{"SaveStatus;LoadValidators", lv})
+	}
+	for _, o := range out {
+		if o.vs == nil {
+			return nil, fmt.Errorf("%s gave no set back", o.route)
+		}
+	}
+	return out, nil
 }
